@@ -63,7 +63,9 @@ MC_THOROUGH = dict(MC_QUICK)
 MC_THOROUGH.update({
     # four devices: 1 is central (to 3 or 4) and peripheral (of 2) at once, incoming completes while outgoing is pending
     "four-devices": (dict(Devs=[1, 2, 3, 4], Advs=[1, 3, 4], Inits=[1, 2], MaxConns=3, MaxAdv=3, MaxCalls=3, MaxSends=1, MaxDisc=0, MaxH=3,
-                          AdvKinds=["rnd"], OwnKinds=["pub", "rnd"]), LE_CORE + DATA),
+                          AdvKinds=["rnd"], OwnKinds=["rnd"]), LE_CORE + DATA),
+    "four-devices-public": (dict(Devs=[1, 2, 3, 4], Advs=[1, 3, 4], Inits=[1, 2], MaxConns=3, MaxAdv=3, MaxCalls=3, MaxSends=1, MaxDisc=0, MaxH=3,
+                                 AdvKinds=["pub"], OwnKinds=["pub"]), LE_CORE + DATA),
     "four-devices-race": (dict(Devs=[1, 2, 3, 4], Advs=[3, 4], Inits=[1, 2], MaxConns=3, MaxAdv=2, MaxCalls=3, MaxStop=1, MaxSends=1, MaxDisc=0, MaxH=3,
                                AdvKinds=["pub"], OwnKinds=["rnd"]), LE_CORE + ["ConnFail"] + DATA),
     "pair-any-hci-delay-2": (dict(Devs=[1, 2], Advs=[2], Inits=[1], EagerHost=False, MaxConns=2, MaxPdus=2, MaxSends=3, MaxDisc=2, MaxAdv=2, MaxCalls=2, AdvKinds=["pub"]),
@@ -261,6 +263,12 @@ def sig_of(v, events):
             return "host:pdu:payload-differs", "a PDU arrives with bytes other than those sent"
         return "host:pdu:delivered-out-of-turn", "a PDU is handed to a host on a connection it was not sent on, twice, or out of order"
     if e == "t2_disc":
+        lost = [c for c in diag.get("undelivered", ()) if not c.get("term")]
+        if lost:
+            # the terminate of a disconnection arrives while PDUs sent before it have not: they are lost (same FIFO)
+            c = lost[0]
+            return f"link:acl:{c['tr']}:lost:sender-address={c['own']}", (
+                f"a PDU sent on a live {c['tr']} connection (sender's own address {c['own']}, peer address {c['peer']}) has not reached the peer when the later disconnection does")
         return "controller:disconnection-complete:unexpected", "a Disconnection Complete that nobody asked for"
     if e == "disc_evt":
         return "device:disconnection-event:unexpected", "a 'disconnection' event without a Disconnection Complete"
